@@ -1,6 +1,7 @@
 """C40  The REPL evaluates incremental input like a script and tracks *1 *2 *3 *e.
 
-(a) Every program of <= n top-level items over a 12-item alphabet (constant,
+(a) Every program of <= n top-level items over a 12-item alphabet (and of
+    <= n_red items over a stated sub-alphabet) (constant,
     None, setv, arithmetic on a variable (also yielding the falsy value 0), list display, string literal,
     print, quoted symbol, `#_ FORM`, comment, nested call, list with an inner
     comment), in EVERY line-break layout (each separator slot inside and
@@ -49,12 +50,15 @@ ASSUMPTIONS = [
     "after a disagreement the model is resynchronised to the observed variables and the history IS extended, so a known defect does not hide the space behind it",
 ]
 
-REDUCED_ITEMS = ["const", "setv", "str", "quote", "discard", "comment", "print"]
+REDUCED_ITEMS = {
+    "quick": ["const", "setv", "mul", "str", "quote", "discard", "comment", "print", "listc"],
+    "thorough": ["const", "setv", "str", "quote", "discard", "comment", "print"],
+}
 REDUCED_OPS = ["c", "n", "r", "l", "m", "i"]
 # n: max items over the full item alphabet; both_upto: programs up to this length are driven through push AND runsource (longer: push only);
-# n_red: max items over REDUCED_ITEMS (push only; lengths n+1..n_red);  k: max history over all input kinds;  k_red: over REDUCED_OPS
+# n_red: max items over REDUCED_ITEMS[tier] (push only; lengths n+1..n_red);  k: max history over all input kinds;  k_red: over REDUCED_OPS
 BOUNDS = {
-    "quick": dict(n=3, both_upto=2, n_red=3, k=4, k_red=4),
+    "quick": dict(n=2, both_upto=2, n_red=3, k=4, k_red=4),
     "thorough": dict(n=3, both_upto=3, n_red=4, k=5, k_red=6),
 }
 TIME_CAP = {"quick": 1800, "thorough": 5400}
@@ -64,7 +68,7 @@ def bounds(tier):
     from mc.ref import rc_repl_ref as R
     b = BOUNDS[tier]
     return {"a_items": {n: " ".join(R.ITEMS[n][0](11)) for n in R.ITEM_NAMES}, "a_max_items": b["n"],
-            "a_reduced_items": REDUCED_ITEMS if b["n_red"] > b["n"] else [], "a_reduced_max_items": b["n_red"],
+            "a_reduced_items": REDUCED_ITEMS[tier] if b["n_red"] > b["n"] else [], "a_reduced_max_items": b["n_red"],
             "a_layouts": "every subset of the free separator slots is a line break",
             "a_drivers": "push and runsource for programs of <= %d items, push for longer ones" % b["both_upto"],
             "b_inputs": R.OP_DOC, "b_max_history": b["k"],
@@ -78,7 +82,7 @@ def _programs(tier):
     for ln in range(1, b["n"] + 1):
         out.extend(itertools.product(R.ITEM_NAMES, repeat=ln))
     for ln in range(b["n"] + 1, b["n_red"] + 1):
-        out.extend(itertools.product(REDUCED_ITEMS, repeat=ln))
+        out.extend(itertools.product(REDUCED_ITEMS[tier], repeat=ln))
     return out
 
 
@@ -121,7 +125,9 @@ class Session:
         import sys
         import hy
         from hy.reader import mangle
+        import os
         self._io, self._ctx, self._sys = io, contextlib, sys
+        os.environ.pop("HYSTARTUP", None)          # a startup file would change the session
         sys.modules.pop("__console__", None)
         self.names = [mangle("*1"), mangle("*2"), mangle("*3")]
         self.ename = mangle("*e")
@@ -353,7 +359,7 @@ class ReplSystem:
             if obs not in m.adm:
                 dup = (not exp["success"]) and before[0] is not None and obs[0] is before[0] and obs[1] is before[0]
                 if dup:
-                    problems.append(dict(kind="repl-failed-input-repeats-a-result", sig="b:stale-shift", failure=R.FAILS[op], shape="*1=*2=previous *1",
+                    problems.append(dict(kind="repl-failed-input-repeats-a-result", sig="b:stale-shift", failure=R.FAILS[op], shape="star1-and-star2-both-previous-star1",
                                          op=op, detail="before the failing input %r: (*1 *2 *3) = %r; after it: %r — *1 and *2 now both hold the result of one earlier input"
                                                        % (lines, tuple(before), obs)))
                 else:
